@@ -7,6 +7,7 @@ compared with a fresh server opened with the same current contents and with `iro
 random long histories over generated documents."""
 import itertools
 import os
+import urllib.parse
 import re
 import subprocess
 from concurrent.futures import ThreadPoolExecutor
@@ -80,7 +81,9 @@ def cli_check(binp, texts, state, wd, tag):
     os.makedirs(d, exist_ok=True)
     paths = {}
     for uid in sorted(state):
-        p = os.path.join(d, "doc%d.st" % uid)
+        # the same relative path as in the document's URI: files are analyzed in the order of their identifiers
+        p = os.path.join(d, urllib.parse.unquote(L.uri_str(uid, True)[len("file:///"):]))
+        os.makedirs(os.path.dirname(p), exist_ok=True)
         with open(p, "w", encoding="utf-8") as f:
             f.write(texts[state[uid]])
         paths[uid] = p
